@@ -116,6 +116,13 @@ def main():
     if rep.tier != "thorough":
         scns = scns  # the quick constants already bound the product
     findings = scenrun.evaluate(rep, scns, evaluate, procs=a.procs, sample_fmt=lambda s: s)
+
+    def _mut(s):
+        if s["pred"]["sv2"][0] <= 0 or s["cfg"]["solver"] != "full":
+            return None
+        s["pred"]["sv2"][0] += 1
+        return s
+    scenrun.self_test(rep, scns, evaluate, _mut, "leading squared singular value + 1 unit")
     scenrun.report(rep, findings, TAGS)
     rep.exhaustive = True
     rep.extra["rule"] = ("every configuration of XWorldSingle within the tier's constants is emitted by TLC with its exact prediction and "
